@@ -80,7 +80,9 @@ def h_range_from_bbox(kind, ty_, tx):
     yy, xx = gbt.range_from_bbox(bbox)
     prove("rows_within_tiling", And(0 <= yy.start, yy.stop <= cy, yy.step == 1 if not isinstance(yy.step, symx.Sym) else True))
     prove("cols_within_tiling", And(0 <= xx.start, xx.stop <= cx))
-    # (a degenerate box lying exactly on a tile boundary may legitimately give an empty range)
+    # a query always meets at least one tile of the row/column it is clamped to -- also a point or a
+    # line lying exactly on a tile boundary (it belongs to the tile that starts there)
+    prove("ranges_never_empty", And(yy.start < yy.stop, xx.start < xx.stop))
     r, col = Int("r"), Int("col")
     assume(And(0 <= r, r < cy, 0 <= col, col < cx))
     y0, y1 = region_of(kind, dy, r, NY)
